@@ -235,6 +235,7 @@ type ilCall struct {
 	Done  bool
 }
 
+var reMd5 = regexp.MustCompile(`-[0-9a-f]{32}`)
 var reRunFile = regexp.MustCompile(`\.\d{8}\.\d{2}:\d{2}:\d{2}\.\d{3}\.[0-9a-f]{8}(_c)?\.dat$`)
 
 func fileKind(rel string) string {
@@ -311,7 +312,7 @@ func parseIlTrace(path, root string) ([]ilCall, string, error) {
 				} else if strings.HasPrefix(p, root+"/") {
 					p = p[len(root)+1:]
 				}
-				cl.Path = p
+				cl.Path = reMd5.ReplaceAllString(p, "-<md5-of-dag-path>") // the directory name carries the md5 of the scene's own path
 			}
 		}
 		cl.Class = cl.Name + "(" + fileKind(cl.Path) + ")"
